@@ -82,7 +82,12 @@ def judge(h, parsed, rc, timed_out, out):
     unsupported = [c for c in failed if "unsupported_construct" in c["name"] or "is not currently supported by Kani" in c["desc"]]
     # covers
     tags = set(h.get("tags", []))
+    # twin covers of the `check!` oracles (cover of the negated assertion, same description): they are satisfied exactly
+    # when the assertion fails, exist only to obtain a concrete-playback test, and are no vacuity witnesses
+    twin_descs = {c["desc"] for c in asserts}
     for c in covers:
+        if c["desc"] in twin_descs:
+            continue
         m = re.match(r"\[([\w-]+)\]", c["desc"])
         if m and not (set(m.group(1).split("-")) <= tags):
             # witness of a branch this instantiation cannot take (e.g. chunk switch with budget 0): not required
